@@ -423,7 +423,7 @@ def _install_solvers(bd, la):
 
         def solve_sylvester(Y, index):
             V = inner(Y, index)
-            if Y is zero:
+            if Y is zero or V is zero:
                 return V
             try:
                 if index[0] < nb and index[1] < nb:
